@@ -68,6 +68,8 @@ func c01Library() []*tGraph {
 		{Name: "deepfan", V: []*model.Elem{mv("a", "P", d[1]), mv("b", "Q", d[2]), mv("c", "P", d[4]), mv("d", "Q", d[5])},
 			E: []*model.Elem{me("e1", "r", "a", "b", nil), me("e2", "s", "a", "c", d[1]), me("e3", "r", "b", "c", nil), me("e4", "s", "b", "d", d[2]), me("e5", "r", "c", "d", nil),
 				me("e6", "s", "c", "a", nil), me("e7", "r", "d", "a", d[3]), me("e8", "s", "d", "b", nil)}},
+		{Name: "prefixlabels", V: []*model.Elem{mv("a", "P", d[1]), mv("b", "PP", d[2]), mv("c", "Pr", d[4]), mv("d", "Q", d[5])},
+			E: []*model.Elem{me("e1", "r", "a", "b", nil), me("e2", "rr", "a", "c", d[1]), me("e3", "rs", "b", "a", nil), me("e4", "s", "c", "a", d[2]), me("e5", "r", "d", "a", nil)}},
 		{Name: "star", V: []*model.Elem{mv("a", "P", d[2]), mv("b", "P", d[1]), mv("c", "Q", d[1]), mv("d", "Q", d[5])},
 			E: []*model.Elem{me("e1", "r", "a", "b", nil), me("e2", "r", "a", "c", d[4]), me("e3", "s", "a", "d", nil), me("e4", "r", "d", "a", d[3]), me("e5", "s", "b", "b", nil)}},
 	}
@@ -282,7 +284,7 @@ func c01MkCase(alpha []stepDef, idx []int, graphs []int) (fw.Case, bool) {
 	return fw.MkCase("prog", c01Case{Stmts: gq.StmtJSON(stmts), Graphs: graphs, Names: progNames(alpha, idx)}), true
 }
 
-const c01LibN = 9
+const c01LibN = 10
 
 func c01Gen(g *fw.GenCtx) []fw.Case {
 	alpha := c01Alphabet()
@@ -594,7 +596,7 @@ func c01Run(w *fw.Worker, env *c01Env, cc c01Case, _ gdbi.GraphDB) fw.Result {
 func init() {
 	fw.Register(&fw.Property{
 		ID:   "C01",
-		Rule: "programs over a 63-instance step alphabet: every sequence that starts with V/E up to length 3 (quick) / 4 (thorough), pruned below an ill-typed prefix, plus sequences with a non-start first step, plus 2000 / 50000 random type-directed programs of length 5-9; plus deep families (every sequence of 1-3 / 1-5 moves from out, in, both, outE, bothE after V() and V(a), with marks set at the start or after the first and after the last move, ending in path(), select, render of a mark or count) on the graphs with fan-out at every level; each well-typed program runs on 3-4 graphs drawn from a 9-graph hostile library (empty, single, self loop, parallel edges, dangling endpoints, isolated vertices, label=property name, nested data) and 20 / 500 seeded random graphs, compiled WITHOUT optimizers over a force-load decorator, and its canonical row multiset is compared with the reference interpreter; ill-typed programs must fail to compile. Non-trivial = an ill-typed program that was checked for rejection, or a well-typed one whose (untruncated) result is non-empty; distinct = distinct (program, graph list).",
+		Rule: "programs over a 63-instance step alphabet: every sequence that starts with V/E up to length 3 (quick) / 4 (thorough), pruned below an ill-typed prefix, plus sequences with a non-start first step, plus 2000 / 50000 random type-directed programs of length 5-9; plus deep families (every sequence of 1-3 / 1-5 moves from out, in, both, outE, bothE after V() and V(a), with marks set at the start or after the first and after the last move, ending in path(), select, render of a mark or count) on the graphs with fan-out at every level; each well-typed program runs on 3-4 graphs drawn from a 10-graph hostile library (labels that are prefixes of one another, empty, single, self loop, parallel edges, dangling endpoints, isolated vertices, label=property name, nested data) and 20 / 500 seeded random graphs, compiled WITHOUT optimizers over a force-load decorator, and its canonical row multiset is compared with the reference interpreter; ill-typed programs must fail to compile. Non-trivial = an ill-typed program that was checked for rejection, or a well-typed one whose (untruncated) result is non-empty; distinct = distinct (program, graph list).",
 		Assumptions: []string{
 			"where the docs are silent the model follows the literal fully-loaded engine of the pinned tree (DESIGN.md appendix A): V(ids) repeats, moves drop absent endpoints, hasKey counts a null-valued key as present, unwind of a non-list or empty list yields one row with the key set to null, unwind/select append to the path",
 			"not generated because unspecified: label lists on moves from an edge, path() after fields()/unwind(), _to/_from on vertices, nested or mixed include/exclude field lists, JSONPath features beyond dotted paths, -0",
